@@ -158,3 +158,149 @@ contract(
     modifies_maps=mm("cmd0.NPU_SET_ACTIVATION", "cmd0.NPU_SET_ACTIVATION_MIN", "cmd0.NPU_SET_ACTIVATION_MAX"),
     **COMMON,
 )
+
+
+# ===== waits and operation codes (C06: waits precede the operation; exactly one NPU_OP word per operation; C04) =========
+from ethosu.vela.api import (NpuBlockOperation, NpuConv2DOperation, NpuConvDepthWiseOperation, NpuDmaOperation, NpuElementWiseOp,  # noqa: E402
+                             NpuElementWiseOperation, NpuOperation, NpuPoolingOp, NpuPoolingOperation)
+from ethosu.vela.register_command_stream_util import Watermark  # noqa: E402
+
+WATERMARK = TTuple(TInt(lo=-1, hi=15), TInt(lo=-1, hi=15), cls=Watermark)
+
+
+def word0(emit, i):
+    return emit.cmd_stream[i][0]
+
+
+contract(
+    "ethosu.vela.register_command_stream_generator:generate_cmd_waits", props=["C06", "C04"],
+    variants={"default": dict(emit=EMIT, cmd_waits=WATERMARK)},
+    requires=["emit_inv(emit)"],
+    ensures=KEEP + [
+        # exactly the requested waits are appended (never elided), kernel wait first, each carrying its count on channel 0
+        "len(emit.cmd_stream) == old(len(emit.cmd_stream)) + (1 if cmd_waits.npu >= 0 else 0) + (1 if cmd_waits.dma >= 0 else 0)",
+        "implies(cmd_waits.npu >= 0, word0(emit, old(len(emit.cmd_stream))) == cmd0.NPU_OP_KERNEL_WAIT.value + cmd_waits.npu * 2**16)",
+        "implies(cmd_waits.dma >= 0, word0(emit, len(emit.cmd_stream) - 1) == cmd0.NPU_OP_DMA_WAIT.value + cmd_waits.dma * 2**16)",
+    ],
+    modifies=["emit.cmd_stream", "emit.offset"], **GHOST,
+)
+
+OPCODE_VARIANTS = {
+    "dma": dict(emit=EMIT, npu_op=TStruct(NpuDmaOperation, channel=TInt(lo=0, hi=1), mode=TInt(lo=0, hi=1))),
+    "conv2d": dict(emit=EMIT, npu_op=TStruct(NpuConv2DOperation)),
+    "depthwise": dict(emit=EMIT, npu_op=TStruct(NpuConvDepthWiseOperation)),
+    "pooling": dict(emit=EMIT, npu_op=TStruct(NpuPoolingOperation, sub_op_type=TEnum(NpuPoolingOp))),
+    "elementwise": dict(emit=EMIT, npu_op=TStruct(NpuElementWiseOperation, sub_op_type=TEnum(NpuElementWiseOp))),
+}
+KICK = (cmd0.NPU_OP_DMA_START, cmd0.NPU_OP_CONV, cmd0.NPU_OP_DEPTHWISE, cmd0.NPU_OP_POOL, cmd0.NPU_OP_ELEMENTWISE)
+
+
+def expected_opcode(npu_op):
+    return (cmd0.NPU_OP_DMA_START.value if isinstance(npu_op, NpuDmaOperation) else
+            cmd0.NPU_OP_CONV.value if isinstance(npu_op, NpuConv2DOperation) else
+            cmd0.NPU_OP_DEPTHWISE.value if isinstance(npu_op, NpuConvDepthWiseOperation) else
+            cmd0.NPU_OP_POOL.value if isinstance(npu_op, NpuPoolingOperation) else cmd0.NPU_OP_ELEMENTWISE.value)
+
+
+contract(
+    "ethosu.vela.register_command_stream_generator:generate_operation_code", props=["C06"], variants=OPCODE_VARIANTS,
+    requires=["emit_inv(emit)"],
+    ensures=KEEP + [
+        # exactly one word: the kick-off command of the operation's kind (never NPU_OP_STOP, never a wait), with its mode parameter
+        "len(emit.cmd_stream) == old(len(emit.cmd_stream)) + 1",
+        "word0(emit, len(emit.cmd_stream) - 1) % 2**16 == expected_opcode(npu_op)",
+        "word0(emit, len(emit.cmd_stream) - 1) % 2**16 != cmd0.NPU_OP_STOP.value",
+        "implies(isinstance(npu_op, NpuDmaOperation), word0(emit, len(emit.cmd_stream) - 1) // 2**16 == npu_op.channel * 16 + npu_op.mode)",
+        "implies(isinstance(npu_op, NpuPoolingOperation), word0(emit, len(emit.cmd_stream) - 1) // 2**16 == rg.pooling_op_map[npu_op.sub_op_type])",
+        "implies(isinstance(npu_op, NpuElementWiseOperation), word0(emit, len(emit.cmd_stream) - 1) // 2**16 == rg.elementwise_op_map[npu_op.sub_op_type])",
+    ],
+    modifies=["emit.cmd_stream", "emit.offset", "emit.reg_machine[0].bank_idx", "emit.reg_machine[1].bank_idx"], **GHOST,
+)
+
+
+# ===== feature-map registers =====================================================================================
+from contracts.c_rcs_util import default_strides  # noqa: E402
+from ethosu.vela.errors import ByteAlignmentError, ByteSizeError  # noqa: E402
+
+contract(
+    "ethosu.vela.register_command_stream_generator:generate_strides",
+    variants={"ifm": dict(emit=EMIT, fm=FM, stride_c_cmd=TConst(cmd1.NPU_SET_IFM_STRIDE_C), stride_y_cmd=TConst(cmd1.NPU_SET_IFM_STRIDE_Y),
+                          stride_x_cmd=TConst(cmd1.NPU_SET_IFM_STRIDE_X))},
+    requires=["emit_inv(emit)", "implies(fm.strides is None, fm.shape.width * fm.shape.depth * 4 * 16 < 2**40)"],
+    raises=[(ByteSizeError, None)],
+    ensures=KEEP + [
+        # the three stride registers hold the feature map's strides (explicit ones, else the default layout strides) ...
+        "implies(fm.strides is not None, D_addr(emit, cmd1.NPU_SET_IFM_STRIDE_C) == fm.strides.depth and D_addr(emit, cmd1.NPU_SET_IFM_STRIDE_Y) == fm.strides.height"
+        " and D_addr(emit, cmd1.NPU_SET_IFM_STRIDE_X) == fm.strides.width)",
+        "implies(fm.strides is None, D_addr(emit, cmd1.NPU_SET_IFM_STRIDE_C) == default_strides(fm).depth and D_addr(emit, cmd1.NPU_SET_IFM_STRIDE_Y) == default_strides(fm).height"
+        " and D_addr(emit, cmd1.NPU_SET_IFM_STRIDE_X) == default_strides(fm).width)",
+        # ... and a normal return implies they meet the hardware alignment rules
+        "implies(fm.layout == NpuLayout.NHCWB16, D_addr(emit, cmd1.NPU_SET_IFM_STRIDE_C) % 16 == 0 and D_addr(emit, cmd1.NPU_SET_IFM_STRIDE_Y) % 16 == 0)",
+        "implies(fm.layout == NpuLayout.NHWC, D_addr(emit, cmd1.NPU_SET_IFM_STRIDE_Y) % fm.data_type.size_in_bytes() == 0"
+        " and D_addr(emit, cmd1.NPU_SET_IFM_STRIDE_X) % fm.data_type.size_in_bytes() == 0)",
+    ],
+    modifies_maps=mm("cmd1.NPU_SET_IFM_STRIDE_C", "cmd1.NPU_SET_IFM_STRIDE_Y", "cmd1.NPU_SET_IFM_STRIDE_X"),
+    **COMMON,
+)
+
+
+def prec_fields(w):
+    """IFM/IFM2_PRECISION register: bit 0 signed, bits 2-3 activation precision (0: 8 bit, 1: 16, 2: 32), bit 6 NHCWB16, bits 8-9 scale mode"""
+    return (w % 2, (w // 4) % 4, (w // 64) % 2, (w // 256) % 4)
+
+
+contract(
+    "ethosu.vela.register_command_stream_generator:generate_ifm_precision",
+    variants={"ifm": dict(emit=EMIT, fm=FM, op_to_scale=TInt(lo=0, hi=2), precision_cmd=TConst(cmd0.NPU_SET_IFM_PRECISION))},
+    requires=["emit_inv(emit)"],
+    ensures=KEEP + ["prec_fields(D(emit, cmd0.NPU_SET_IFM_PRECISION)) == (1 if fm.data_type.is_signed() else 0, {8: 0, 16: 1, 32: 2}[fm.data_type.size_in_bits()],"
+                    " 1 if fm.layout == NpuLayout.NHCWB16 else 0, op_to_scale)",
+                    "D(emit, cmd0.NPU_SET_IFM_PRECISION) < 2**10"],
+    modifies_maps=mm("cmd0.NPU_SET_IFM_PRECISION"), **COMMON,
+)
+
+ROUNDING = TEnum(NpuRoundingMode)
+OFM_OP = TStruct(NpuBlockOperation, ofm=FM, rounding_mode=ROUNDING)
+
+
+def ofm_prec_fields(w):
+    """OFM_PRECISION: bit 0 signed, bits 1-2 precision, bit 6 NHCWB16, bit 8 global scale, bits 14-15 rounding mode"""
+    return (w % 2, (w // 2) % 4, (w // 64) % 2, (w // 256) % 2, (w // 16384) % 4)
+
+
+contract(
+    "ethosu.vela.register_command_stream_generator:generate_ofm_precision",
+    variants={"default": dict(emit=EMIT, npu_op=OFM_OP, use_global_scale=PyBool)},
+    requires=["emit_inv(emit)"],
+    ensures=KEEP + ["ofm_prec_fields(D(emit, cmd0.NPU_SET_OFM_PRECISION)) == (1 if npu_op.ofm.data_type.is_signed() else 0,"
+                    " {8: 0, 16: 1, 32: 2}[npu_op.ofm.data_type.size_in_bits()], 1 if npu_op.ofm.layout == NpuLayout.NHCWB16 else 0,"
+                    " 1 if use_global_scale else 0, rg.rounding_mode_map[npu_op.rounding_mode])"],
+    modifies_maps=mm("cmd0.NPU_SET_OFM_PRECISION"), **COMMON,
+)
+
+RANGE = TTuple(TInt(lo=0, hi=7), TInt(lo=0, hi=2**40 - 1), TInt(lo=0, hi=2**32 - 1), cls=NpuAddressRange)
+ARCH_NCORES = TStruct("ArchitectureFeatures", ncores=TInt(lo=1, hi=2))
+
+for _name, _fn, _region, _regs in (
+    ("weights", "generate_weights", "cmd0.NPU_SET_WEIGHT_REGION",
+     ("cmd1.NPU_SET_WEIGHT_BASE", "cmd1.NPU_SET_WEIGHT_LENGTH", "cmd1.NPU_SET_WEIGHT1_BASE", "cmd1.NPU_SET_WEIGHT1_LENGTH")),
+    ("biases", "generate_biases", "cmd0.NPU_SET_SCALE_REGION",
+     ("cmd1.NPU_SET_SCALE_BASE", "cmd1.NPU_SET_SCALE_LENGTH", "cmd1.NPU_SET_SCALE1_BASE", "cmd1.NPU_SET_SCALE1_LENGTH")),
+):
+    contract(
+        "ethosu.vela.register_command_stream_generator:%s" % _fn,
+        variants={"%d_ranges" % n: {"emit": EMIT, _name: TTuple(*([RANGE] * n)), "arch": ARCH_NCORES} for n in (0, 1, 2)},
+        requires=["emit_inv(emit)"],
+        raises=[(ByteAlignmentError, None), (ByteSizeError, None)],
+        ensures=KEEP + [
+            "implies(len(%s) == 0, len(emit.cmd_stream) == old(len(emit.cmd_stream)))" % _name,
+            "implies(len(%s) >= 1, D(emit, %s) == %s[0].region and D_addr(emit, %s) == %s[0].address and emit.decoded[%s][1] == %s[0].length)"
+            % (_name, _region, _name, _regs[0], _name, _regs[1], _name),
+            # second core: its own range, or (two cores, one range) the first range's address with length 0
+            "implies(len(%s) == 2, D_addr(emit, %s) == %s[1].address and emit.decoded[%s][1] == %s[1].length)" % (_name, _regs[2], _name, _regs[3], _name),
+            "implies(len(%s) == 1 and arch.ncores == 2, D_addr(emit, %s) == %s[0].address and emit.decoded[%s][1] == 0)" % (_name, _regs[2], _name, _regs[3]),
+            # alignment: a normal return implies 16-byte multiples of every length (and, for weights, every address)
+            "all(r.length %% 16 == 0 for r in %s)" % _name,
+        ] + (["all(r.address % 16 == 0 for r in weights)"] if _name == "weights" else []),
+        modifies_maps=mm(_region, *_regs), **COMMON,
+    )
